@@ -3,18 +3,19 @@ namespace Yaclib.CoSharedMutex
 
 set_option maxHeartbeats 4000000 in
 theorem inv_step_7 {cfg s l s'} (hi : Inv cfg s) (hs : Step s l s') (hg : grpOf l = 7) : Inv cfg s' := by
-  cases hi
   cases hs with
   | wrPost c r h hs =>
+      cases hi
       by_cases hp : s.rwait = -(r : Int)
-      · simp only [doWrPost, hp, ↓reduceIte]; sm_dbg [List.count_le_length, List.length_eq_zero_iff, length_pos_of_ne_nil]
-      · simp only [doWrPost, hp, ↓reduceIte]; sm_dbg [List.count_le_length, List.length_eq_zero_iff, length_pos_of_ne_nil]
+      · simp only [doWrPost, hp, ↓reduceIte]; sm_auto [List.count_le_length]
+      · simp only [doWrPost, hp, ↓reduceIte]; sm_auto [List.count_le_length]
   | wUnlock c k h hs =>
+      cases hi
       cases k
-      · simp only [doWUnlock]; sm_dbg [List.count_le_length, List.length_eq_zero_iff, length_pos_of_ne_nil]
+      · simp only [doWUnlock]; sm_auto [List.count_le_length]
       · by_cases hc : (s.cfg.fifo = true ∧ s.Q = [])
-        · simp only [doWUnlock, hc, and_self, ↓reduceIte]; sm_dbg [List.count_le_length, List.length_eq_zero_iff, length_pos_of_ne_nil]
-        · simp only [doWUnlock, hc, ↓reduceIte]; sm_dbg [List.count_le_length, List.length_eq_zero_iff, length_pos_of_ne_nil]
+        · simp only [doWUnlock, hc, and_self, ↓reduceIte]; sm_auto [List.count_le_length]
+        · simp only [doWUnlock, hc, ↓reduceIte]; sm_auto [List.count_le_length]
   | _ => simp [grpOf] at hg
 
 end Yaclib.CoSharedMutex
